@@ -18,7 +18,7 @@ O(f) == JObj(f)
 A(e) == JArr(e)
 Trees == <<
   \* 1: an object, an array of (object, scalar), an array of (array, scalar)
-  O([k \in {"o", "l", "g"} |-> CASE k = "o" -> O([j \in {"x", "y"} |-> V("o/" \o j)])
+  O([k \in {"o", "l", "g"} |-> CASE k = "o" -> O([j \in {"x", "y", "_sd_alg"} |-> V("o/" \o j)])      \* (below the top level `_sd_alg` is an ordinary name)
                                   [] k = "l" -> A(<<O([j \in {"a", "b"} |-> V("l/0/" \o j)]), V("l/1")>>)
                                   [] k = "g" -> A(<<A(<<V("g/0/0"), V("g/0/1")>>), V("g/1")>>)]),
   \* 2: a chain object -> array -> object -> array
@@ -28,7 +28,9 @@ Root3(U) == JObj([k \in DOMAIN U.f \cup {"iss", "exp"} |-> IF k = "iss" THEN JSt
 \* strategies: everything hidden; only nodes INSIDE containers that stay visible (inner members / elements)
 InnerPaths(i) == IF i = 1 THEN {<<"o", "x">>, <<"l", "[0]">>, <<"l", "[0]", "a">>, <<"g", "[0]", "[1]">>, <<"g", "[1]">>}
                  ELSE {<<"c", "d">>, <<"c", "d", "[0]", "e">>, <<"c", "d", "[0]", "e", "[0]">>, <<"s">>}
-StratOf(i, s) == IF s = 1 THEN AllS ELSE CustomS(InnerPaths(i))
+\* 3: only the top-level members hidden (their values travel in clear inside one disclosure each)
+TopPaths(i) == IF i = 1 THEN {<<"o">>, <<"l">>, <<"g">>} ELSE {<<"c">>, <<"s">>}
+StratOf(i, s) == IF s = 1 THEN AllS ELSE IF s = 2 THEN CustomS(InnerPaths(i)) ELSE CustomS(TopPaths(i))
 
 \* ---- the issuer of SDJWTCore with one extra digest inserted at container path tp ----
 RECURSIVE IssX(_,_,_,_)
